@@ -193,6 +193,36 @@ func TestRaceLitmus(t *testing.T) {
 			wg.Wait()
 			sink = x
 		}},
+		{"syncmap-publish", false, 2, func() {
+			var m sync.Map
+			type entry struct{ v int }
+			var wg sync.WaitGroup
+			wg.Add(2)
+			mcrt.Go(func() { e := &entry{}; e.v = 7; m.Store("k", e); wg.Done() })
+			mcrt.Go(func() {
+				if x, ok := m.Load("k"); ok {
+					l := x.(*entry).v
+					_ = l
+				}
+				wg.Done()
+			})
+			wg.Wait()
+		}},
+		{"syncmap-entry-mutated-after-store", true, 1, func() {
+			var m sync.Map
+			type entry struct{ v int }
+			var wg sync.WaitGroup
+			wg.Add(2)
+			mcrt.Go(func() { e := &entry{}; m.Store("k", e); e.v = 7; wg.Done() })
+			mcrt.Go(func() {
+				if x, ok := m.Load("k"); ok {
+					l := x.(*entry).v
+					_ = l
+				}
+				wg.Done()
+			})
+			wg.Wait()
+		}},
 		{"afterfunc-sees-arming-writes", false, 1, func() {
 			x := 0
 			done := make(chan struct{})
